@@ -282,13 +282,27 @@ def extract_formatters(emit):
     pats = re_call_patterns(fn)
     fi = [p for m, p in pats if m == "finditer"]
     su = [p for m, p in pats if m == "sub"]
-    if len(fi) != 2 or len(su) != 1:
-        raise ExtractError(f"Formatter.gen_format: expected 2 finditer + 1 sub patterns, got {pats}")
-    emit(f"def gen_format_token_re : List Char := {lean_str(fi[0])}")
-    emit(f"def gen_format_inner_re : List Char := {lean_str(fi[1])}")
-    pre, _, post = su[0].partition("\x00")
+    if len(fi) != 1 or len(su) != 2:
+        raise ExtractError(f"Formatter.gen_format: expected 1 finditer + 2 sub patterns, got {pats}")
+    rename = [p for p in su if "\x00" in p]
+    token = [p for p in su if "\x00" not in p]
+    if len(rename) != 1 or len(token) != 1:
+        raise ExtractError(f"Formatter.gen_format: unexpected sub patterns {su}")
+    emit(f"def gen_format_token_re : List Char := {lean_str(token[0])}")
+    emit(f"def gen_format_inner_re : List Char := {lean_str(fi[0])}")
+    pre, _, post = rename[0].partition("\x00")
     emit(f"def gen_format_sub_pre : List Char := {lean_str(pre)}")
     emit(f"def gen_format_sub_post : List Char := {lean_str(post)}")
+    # what `%%` is replaced by
+    pct = None
+    for n in ast.walk(fn):
+        if isinstance(n, ast.If) and isinstance(n.test, ast.Compare) and isinstance(n.test.comparators[0], ast.Constant) and n.test.comparators[0].value == "%%":
+            for b in n.body:
+                if isinstance(b, ast.Return) and isinstance(b.value, ast.Constant):
+                    pct = b.value.value
+    if pct is None:
+        raise ExtractError("Formatter.gen_format: the replacement of '%%' was not found")
+    emit(f"def gen_format_percent : List Char := {lean_str(pct)}")
     # replacement template of the sub and the escape handling, by ast
     tmpl = None
     for n in ast.walk(fn):
@@ -433,9 +447,13 @@ def extract_assets(emit):
     emit(f"def asset_anchor_post : List Char := {lean_str(b)}")
     # the asset engine repeats the classic tokenisers: they must be the same texts
     fn = find_func(tree, "gen_format", "Formatter")
-    pats = [p for m, p in re_call_patterns(fn) if m == "finditer"]
-    emit(f"def asset_gen_format_token_re : List Char := {lean_str(pats[0])}")
-    emit(f"def asset_gen_format_inner_re : List Char := {lean_str(pats[1])}")
+    pats = re_call_patterns(fn)
+    fi = [p for m, p in pats if m == "finditer"]
+    token = [p for m, p in pats if m == "sub" and "\x00" not in p]
+    if len(fi) != 1 or len(token) != 1:
+        raise ExtractError("asset Formatter.gen_format: patterns not found")
+    emit(f"def asset_gen_format_token_re : List Char := {lean_str(token[0])}")
+    emit(f"def asset_gen_format_inner_re : List Char := {lean_str(fi[0])}")
 
 
 def extract_probes(emit):
